@@ -402,6 +402,11 @@ def check_state(r, rule, reach):
                 continue
             if not root[1].startswith(PKG + "."):
                 continue          # (third-party module objects: numpy's random stream etc. are the business of the RNG rules)
+            from .rules import baseline_owners
+            if baseline_owners(r, q) == {"pyrepseq.nn._to_triplets"} and not any(rt[1] == "pyrepseq.nn._cal_params" for q2 in E.direct for rt, _, _ in E.direct[q2] if rt[0] == "glob"):
+                # the audited parameter block itself was replaced by another module-level object written by the same function (see C20-GLB)
+                rep.require(False, f"{q}: the kdtree parameter block was replaced by the module-level object {root[1].rsplit('.', 1)[1]}; its discipline cannot be decided [{rule}]")
+                continue
             hits += 1
             rep.ob(rule, q, False, "functions on this property's path keep no module-level state between calls", where_of(r.P, r.P.functions[q], e.node),
                    expected="no write to module-level objects", found=w, key=f"module state {root[1]}", lint=True)
